@@ -317,6 +317,8 @@ type Req struct {
 	Body   string              `json:"body,omitempty"`
 	// UnknownLength sends the body with ContentLength -1 (a chunked upload, or a request built from a plain io.Reader)
 	UnknownLength bool `json:"unknown_length,omitempty"`
+	// Chunked marks the request as received with Transfer-Encoding: chunked (what a server hands to the handler for such an upload)
+	Chunked bool `json:"chunked,omitempty"`
 
 	PanicAt    string `json:"panic_at,omitempty"`
 	PanicAfter bool   `json:"panic_after,omitempty"`
@@ -343,6 +345,9 @@ func (q Req) Build() (*http.Request, *Outcome, *Rec) {
 		if q.UnknownLength {
 			r.ContentLength = -1
 		}
+	}
+	if q.Chunked {
+		r.TransferEncoding = []string{"chunked"}
 	}
 	r = r.WithContext(context.WithValue(context.Background(), ctxKey{}, o))
 	rec := &Rec{o: o, hdr: http.Header{}}
